@@ -23,7 +23,7 @@ pub fn main(prop: &'static str, args: &Args) {
         let st = std::process::Command::new(bin_path(&pkgs[shard])).args(["--prop", prop, "--replay", p]).status().unwrap();
         std::process::exit(st.code().unwrap_or(2));
     }
-    let mut rep = Report::new(prop, args.tier, "model_checking");
+    let mut rep = Report::new(prop, args.tier, if prop == "C07" { "exploration" } else { "model_checking" });
     if let Err(e) = build(&pkgs) {
         vrt::machinery(&format!("corpus build failed (C20 reports receivers that do not compile):\n{}", e.chars().take(3000).collect::<String>()));
     }
